@@ -61,6 +61,9 @@ def configs(draw, keepalive=False, priv_ext=True):
     cfg['cap_ba'] = draw(st.sampled_from(CAPS))
     cfg['regime'] = draw(st.sampled_from(REGIMES))
     cfg['priv_ext'] = draw(st.booleans()) if priv_ext else False
+    # both sides offer TLS: the session runs through the endpoint's TLS socket paths (scripted pass-through socket
+    # without certificates; 'records': reads hand data over record-wise, the rest stays pending inside the TLS object)
+    cfg['tls'] = draw(st.sampled_from([None, None, None, 'plain', 'records']))
     return cfg
 
 
@@ -176,8 +179,24 @@ def build_world(cfg):
     for side_kw, side_cfg in ((kw_a, cfg['a']), (kw_b, cfg['b'])):
         if side_cfg.get('target_ack') is not None:
             side_kw['modulate_target_ack_time'] = side_cfg['target_ack']
-    return tw.World(tw.make_config('dtn://node-a/', **kw_a), tw.make_config('dtn://node-b/', **kw_b),
-                    cap_ab=cfg.get('cap_ab'), cap_ba=cfg.get('cap_ba'))
+    script = None
+    if cfg.get('tls'):
+        script = {'records': cfg['tls'] == 'records'}
+        for side_kw in (kw_a, kw_b):
+            side_kw.update(tls_enable=True, require_host_authn=False, require_node_authn=False)
+    cap_ab, cap_ba = cfg.get('cap_ab'), cfg.get('cap_ba')
+    return tw.World(tw.make_config('dtn://node-a/', tls_script=script, **kw_a), tw.make_config('dtn://node-b/', tls_script=script, **kw_b),
+                    cap_ab=_tls_cap(cfg, cap_ab), cap_ba=_tls_cap(cfg, cap_ba))
+
+
+def _tls_cap(cfg, cap):
+    ''' The real endpoint switches its socket to blocking mode and runs the TLS handshake synchronously (Connection.
+    secure): whatever cleartext is still unwritten then (the contact header) cannot be represented in a single-threaded
+    simulation of non-blocking sockets.  With TLS the link therefore takes at least a whole contact header at once
+    (a real socket buffer always does at the start of a connection). '''
+    if cfg.get('tls') and cap is not None:
+        return max(cap, 64)
+    return cap
 
 
 def _enabled(world, regime):
@@ -323,7 +342,7 @@ def execute(case, final_drain=True, drain_timers=False):
             sock.tx.writer_closed = True
             trace.vanished.append((dbus.RECORDER.seq, direction))
         elif kind == 'cap':
-            world.link.pipe(op[1]).capacity = op[2]
+            world.link.pipe(op[1]).capacity = _tls_cap(case['cfg'], op[2])
         elif kind == 'tick':
             world.advance_to_next_timer()
         elif kind == 'wait':
